@@ -9,6 +9,7 @@ CLAUSES = {
 TRUSTED = [
     "Coq 8.16.1 kernel (coqc); vm_compute",
     "harness/c20 (Go generator: grammar + mutation + random bytes + corpus + shipped files; canonical printer mirrored in Cfg/Model.v print_nodes and compared byte for byte)",
+    "C20_print_read_roundtrip assumes two facts about the Unicode tables (no letter/digit above U+007F is a space; U+FEFF is neither letter nor digit): checked against Go's unicode package over all code points on every run",
     "Cfg/Model.v is a hand-written model of the lexer, dispenser, parser, macro/snippet/import and environment expansion over rune lists; unicode.IsSpace/IsLetter/IsDigit above U+007F are tables recorded per case; regexp and strings.Replacer semantics are re-implemented for the two patterns used",
     "inputs whose import expansion is exponential are not generated (known finding C20/103); a 5 s guard skips a case that is slow",
 ]
@@ -41,7 +42,7 @@ def shipped(ctx):
 
 def run(ctx):
     ctx.trusted = TRUSTED
-    ok, detail = core.coq_build(ctx, ["theories/Props/C20.vo", "theories/Cfg/Corr.vo", "theories/Cfg/Lemmas.vo"])
+    ok, detail = core.coq_build(ctx, ["theories/Props/C20.vo", "theories/Cfg/Corr.vo", "theories/Cfg/Lemmas.vo", "theories/Cfg/RoundTripTop.vo"])
     ctx.oblige("coq build of Props/C20.vo and its dependencies", ok, detail)
     core.audit(ctx)
     if not ok:
@@ -50,6 +51,10 @@ def run(ctx):
     shipped(ctx)
     ov = core.write_overlay(ctx, {"framework/cfgparser/zz_verif_c20_test.go": "harness/c20/c20_test.go"},
                             {"framework/cfgparser": "parser"})
+    # the hypotheses of the round-trip theorem about unicode.IsSpace / IsLetter / IsDigit
+    rc, log, _, _ = core.run_harness(ctx, ov, "framework/cfgparser", "TestVerif_C20Unicode", 0, "unicode.cases")
+    ctx.oblige("oracle facts of C20_print_read_roundtrip hold for Go's Unicode tables (no letter or digit is a space; U+FEFF is neither), all code points",
+               rc == 0 and "ok" in log, "" if rc == 0 else log[-400:])
     n = 300 if ctx.tier == "quick" else 8000
     core.generic_corr(ctx, overlay=ov, pkg="framework/cfgparser", run="TestVerif_C20", n=n,
                       corr_module="Cfg.Corr", clause_names=CLAUSES, name="cfg", shard=60)
